@@ -257,7 +257,7 @@ def classify_race(c, case, impl, where=""):
         return
     if f[1] == "stuck":
         key = RACE_KEYS.get(mode, "C17:restore-deadlock-" + mode)
-        c.violation(key, "transactions racing RestoreSnapshot stopped making progress%s (mode %s: %s)" % (where, mode, detail or "child timed out"), rp)
+        c.violation(key, "transactions racing RestoreSnapshot stopped making progress%s (%s)" % (where, detail or "mode %s: child timed out" % mode), rp)
     elif f[1] == "mixture":
         c.violation("C17:restore-mixture", "a transaction racing RestoreSnapshot saw a mixture of databases%s: %s" % (where, detail), rp)
     elif f[1] == "error":
